@@ -1,7 +1,7 @@
 #!/bin/bash
 # usage: tools/evalseed.sh <ID> <PROP> [more props]   -- ID names /tmp/wt/<ID> and /tmp/seedout/<ID>
 ID=$1; shift
-WT=/tmp/wt/$ID; OUT=/tmp/seedout/$ID
+WT=/tmp/wt/$ID; OUT=${SEEDOUT:-/tmp/seedout}/$ID
 echo "== patch applies to /repo HEAD?"; git -C /repo apply --check $OUT/patch.diff && echo yes
 echo "== demo on /repo (unmodified): "; (cd /tmp && PYTHONPATH=/repo/src timeout 600 /venv/bin/python -B -W ignore $OUT/demo.py >/tmp/demo_$ID.orig 2>&1; echo "exit=$?"; tail -2 /tmp/demo_$ID.orig)
 echo "== demo on worktree (modified): "; (cd /tmp && PYTHONPATH=$WT/src timeout 600 /venv/bin/python -B -W ignore $OUT/demo.py >/tmp/demo_$ID.mod 2>&1; echo "exit=$?"; tail -3 /tmp/demo_$ID.mod)
